@@ -45,7 +45,7 @@ static void on_stuck(const sched_result* r)
 /* one execution of the workload; returns compressed size or error */
 static size_t execute(const mtw* W, const uint8_t* x, const uint8_t* dict, uint8_t* dst, size_t cap, uint64_t schedSeed, int mode, int depth, sched_result* SR)
 {
-    sched_begin(schedSeed, mode, depth, 3000, 40000000ULL, 10);
+    sched_begin(schedSeed, mode, depth, 3000, 3000000ULL, 10);   /* step bound: ~1000x the typical run */
     sched_set_op("ZSTD_createCCtx");
     ZSTD_CCtx* c = ZSTD_createCCtx(); ZSTD_threadPool* tp = NULL; size_t cs = 0;
     if (W->sharedPool) { tp = ZSTD_createThreadPool((size_t)W->P.nbWorkers); ZSTD_CCtx_refThreadPool(c, tp); }
